@@ -1034,7 +1034,7 @@ def native_module(interp, name):
     if name == 'typing':
         return NMod('typing', Any=object)
     if name == 'attr':
-        return NMod('attr')
+        return NMod('attr', field=attr_field, ib=attr_field, NOTHING=ATTR_NOTHING)
     if name == '__future__':
         return real_future
     def unwrap(func, *, stop=None):
@@ -1107,10 +1107,53 @@ def kwonly_from_decorator(src, clo):
     return None
 
 
+class _AttrNothing:
+    def __repr__(self):
+        return 'NOTHING'
+
+
+ATTR_NOTHING = _AttrNothing()
+
+
+class AttrField:
+    """what attr.field(...) / attr.ib(...) leaves in the class body"""
+
+    def __init__(self, default=ATTR_NOTHING, init=True, factory=None, **other):
+        self.default, self.init, self.factory = default, init, factory
+
+
+def attr_field(*args, **kw):
+    if args:
+        raise EngineLimit('attr.field with positional arguments')
+    known = {k: kw[k] for k in ('default', 'init', 'factory') if k in kw}
+    for k in kw:
+        if k not in ('default', 'init', 'factory', 'repr', 'eq', 'order', 'hash', 'kw_only', 'metadata', 'type', 'alias'):
+            raise EngineLimit('attr.field(%s=...)' % k)
+    if kw.get('kw_only'):
+        raise EngineLimit('attr.field(kw_only=True)')
+    return AttrField(**known)
+
+
 def attrs_define(interp, cls):
     """attr.define: __init__ taking the annotated fields in order (leading underscore stripped from the
-    argument name), stored under the field name"""
-    fields = list(cls.ns.get('__annotations__', []))
+    argument name), stored under the field name; fields declared with attr.field(default=..., init=False, factory=...)
+    or with a plain class-level default are optional / not arguments at all"""
+    all_fields = list(cls.ns.get('__annotations__', []))
+    spec = {}
+    for f in all_fields:
+        v = cls.ns.get(f, ATTR_NOTHING)
+        if isinstance(v, AttrField):
+            spec[f] = v
+        else:
+            spec[f] = AttrField(default=v)
+        cls.ns.pop(f, None)          # (slotted classes: the class-level name is the slot descriptor, not the default)
+    fields = [f for f in all_fields if spec[f].init]
+
+    def default_of(f):
+        s = spec[f]
+        if s.factory is not None:
+            return interp.call(s.factory, [], [])
+        return s.default
 
     def __init__(self, *args, **kw):
         names = [f.lstrip('_') for f in fields]
@@ -1121,9 +1164,14 @@ def attrs_define(interp, cls):
             if k not in names:
                 raise PyExc(TypeError, ('unexpected keyword %r' % k,))
             vals[fields[names.index(k)]] = v
-        for f in fields:
+        for f in all_fields:
             if f not in vals:
-                raise PyExc(TypeError, ('missing argument %r' % f,))
+                d = default_of(f)
+                if d is ATTR_NOTHING:
+                    if spec[f].init:
+                        raise PyExc(TypeError, ('missing argument %r' % f,))
+                    continue        # init=False without a default: the attribute is simply unset
+                vals[f] = d
             self._d[f] = vals[f]
 
     class _AttrsInit:
